@@ -977,13 +977,22 @@ func (m *Nitro) StoreToDisk(dir string, snap *Snapshot, concurr int, itmCallback
 		snap = &fakeSnap
 
 		defer func() {
-			if err = m.changeDeltaWrState(dwStateTerminate, nil, nil); err == nil {
+			if derr := m.changeDeltaWrState(dwStateTerminate, nil, nil); derr != nil {
+				err = derr
+			}
+			if err == nil {
+				for id, dwr := range deltaWriters {
+					deltaChecksums[id] = dwr.Checksum()
+					if cerr := dwr.Close(); cerr != nil && err == nil {
+						err = cerr
+					}
+					deltaWriters[id] = nil
+				}
+			}
+			if err == nil {
 				bs, _ := json.Marshal(deltaFiles)
 				err = ioutil.WriteFile(filepath.Join(deltadir, "files.json"), bs, 0660)
 				if err == nil {
-					for id, dwr := range deltaWriters {
-						deltaChecksums[id] = dwr.Checksum()
-					}
 					bs, _ = json.Marshal(deltaChecksums)
 					err = ioutil.WriteFile(filepath.Join(deltadir, "checksums.json"), bs, 0660)
 				}
@@ -1011,12 +1020,20 @@ func (m *Nitro) StoreToDisk(dir string, snap *Snapshot, concurr int, itmCallback
 	manifest, _ := json.Marshal(map[string]interface{}{"version": version})
 	if err = ioutil.WriteFile(filepath.Join(manifestdir, "nitro.json"), manifest, 0660); err == nil {
 		if err = m.Visitor(snap, visitorCallback, shards, concurr); err == nil {
+			// Flush and close the shard files before the file list is published, so that
+			// a failed flush or close is reported instead of being dropped
+			for id, wr := range writers {
+				checksums[id] = wr.Checksum()
+				if cerr := wr.Close(); cerr != nil && err == nil {
+					err = cerr
+				}
+				writers[id] = nil
+			}
+		}
+		if err == nil {
 			bs, _ := json.Marshal(files)
 			err = ioutil.WriteFile(filepath.Join(datadir, "files.json"), bs, 0660)
 			if err == nil {
-				for id, wr := range writers {
-					checksums[id] = wr.Checksum()
-				}
 				bs, _ = json.Marshal(checksums)
 				err = ioutil.WriteFile(filepath.Join(datadir, "checksums.json"), bs, 0660)
 			}
